@@ -531,7 +531,7 @@ Plan gen_c12(uint64_t seed, uint64_t run, const std::string& cfg) {
   }
   if (mode == 5 || mode == 6) {
     // offset histories (no layout constraint): options, groups, repeated executes, clear
-    int64_t ext = std::max<int64_t>(4, f.ext);
+    int64_t ext = std::min<int64_t>(2000, std::max<int64_t>(4, f.ext));   // keeps the number of arc vertices executable (domain restriction, DESIGN 3.1.1)
     static const double dl[] = {0.4, 0.6, 1, 2, 3.5, 8};
     auto D = [&]() { double d = g.chance(0.6) ? dl[g.below(6)] : (double)ext * (0.05 + g.unit()); return g.chance(0.4) ? -d : d; };
     Op n = mkop("new_off"); n.o = 0; n.d = {g.chance(0.6) ? 2.0 : 1.0 + g.unit() * 4, g.chance(0.6) ? 0.0 : 0.25}; n.i = {(int64_t)g.below(2), (int64_t)g.below(2)}; pl.ops.push_back(n);
